@@ -62,18 +62,48 @@ def f32_safe(v):
     return True
 
 def attribute(findings, c, key, v, what):
+    """mechanism predicates, evaluated on the part of the IR the failing definition can reach"""
+    import irutil
+    es = irutil.entries(c.dump)
+    t = c.dump["ref_to_id"].get("#" if key == "#" else "def:" + key)
+    reach = irutil.reachable(c.dump, t) if t is not None else set()
+    def through(i, fuel=8):
+        e = es.get(i)
+        while e is not None and e["kind"] in ("option", "box", "newtype") and fuel > 0:
+            e = es.get(e["id"] if e["kind"] != "newtype" else e["type_id"]); fuel -= 1
+        return e
+    def swallows_objects(dt):
+        """a variant that reads ANY object: an open struct (variant) without required members"""
+        if not isinstance(dt, dict): return False
+        ps = dt.get("struct")
+        if ps is None and "item" in dt:
+            e = through(dt["item"])
+            if e is None or e["kind"] != "struct" or e.get("deny"): return False
+            ps = e["props"]
+        return ps is not None and all(p["state"] != "required" for p in ps)
+    def objectlike(dt):
+        if not isinstance(dt, dict): return False
+        if "struct" in dt: return True
+        e = through(dt["item"]) if "item" in dt else None
+        return bool(e and e["kind"] in ("struct", "map"))
     for fd in findings:
         if fd["id"] == "C03-box-option-null" and what in ("invalid", "not-contained"):
             # an optional member whose Option node was boxed by cycle breaking: Box<Option<X>> serialises null
-            es = c.dump["entries"]
-            for e in es.values():
-                props = e.get("props", []) + [p for vv in e.get("variants", []) if isinstance(vv["details"], dict) for p in vv["details"].get("struct", [])]
+            for i in reach:
+                e = es[i]
+                props = (e.get("props") or []) + [p for vv in e.get("variants") or [] if isinstance(vv["details"], dict) for p in vv["details"].get("struct", [])]
                 for p in props:
-                    te = es.get(str(p["type_id"]), {})
-                    if p["state"] == "optional" and te.get("kind") == "box" and es.get(str(te.get("id")), {}).get("kind") == "option":
+                    te = es.get(p["type_id"], {})
+                    if p["state"] == "optional" and te.get("kind") == "box" and es.get(te.get("id"), {}).get("kind") == "option":
                         return fd
         if fd["id"] == "C03-untagged-shadow" and what in ("not-contained", "not-fixed-point", "invalid"):
-            if any(e["kind"] == "enum" and e["tag"] == "untagged" for e in c.dump["entries"].values()): return fd
+            # an untagged enum in which a variant that reads every object comes before another object-like variant
+            for i in reach:
+                e = es[i]
+                if e["kind"] == "enum" and e["tag"] == "untagged":
+                    vs = e["variants"]
+                    if any(swallows_objects(a["details"]) and any(objectlike(b["details"]) for b in vs[k + 1:]) for k, a in enumerate(vs)):
+                        return fd
     return None
 
 def run(ctx):
